@@ -102,6 +102,10 @@ type C13Input struct {
 	// active and, with Handlers, StartEnd is bound (the grace Remove1(Start)
 	// then needs the handler loop)
 	Start bool `json:"start,omitempty"`
+	// Mixin (whole-run modes other than 6): the machine carries the Disposed
+	// mixin with DisposedHandlers bound and its dispose handlers are registered
+	// through amhelp.DisposeBind (state-based disposal), whatever the trigger
+	Mixin bool `json:"mixin,omitempty"`
 }
 
 type C13Obs struct {
@@ -294,12 +298,13 @@ func c13New(in *C13Input, obs *C13Obs, id string) (*c13Mach, []*atomic.Int32) {
 	ctx, cancel := context.WithCancel(context.Background())
 	schema := am.Schema{"A": {}, "B": {}, "C": {Multi: true}}
 	names := am.S{"A", "B", "C"}
-	if in.Mode == 6 {
+	mixin := in.Mode == 6 || in.Mixin
+	if mixin {
 		schema = am.SchemaMerge(schema, ssam.DisposedSchema, am.Schema{"Start": {}})
 		names = append(names, "Start", ssam.DisposedStates.RegisterDisposal,
 			ssam.DisposedStates.Disposing, ssam.DisposedStates.Disposed)
 	}
-	if in.Start && in.Mode != 6 {
+	if in.Start && !mixin {
 		schema["Start"] = am.State{}
 		names = append(names, "Start")
 	}
@@ -309,7 +314,7 @@ func c13New(in *C13Input, obs *C13Obs, id string) (*c13Mach, []*atomic.Int32) {
 	m.EvalTimeout = 300 * time.Millisecond
 	must(m.VerifyStates(names))
 	x := &c13Mach{m: m, cancel: cancel, names: names, panics: &obs.Panics, pmu: &sync.Mutex{}}
-	if in.Mode == 6 {
+	if mixin {
 		_, err := m.HandlersBind(&c13StateHandlers{&ssam.DisposedHandlers{}})
 		must(err)
 	}
@@ -335,7 +340,7 @@ func c13New(in *C13Input, obs *C13Obs, id string) (*c13Mach, []*atomic.Int32) {
 		c := &atomic.Int32{}
 		counts[i] = c
 		var h am.HandlerDispose = func(id string, ctx context.Context) { c.Add(1) }
-		if in.Mode == 6 {
+		if mixin {
 			amhelp.DisposeBind(m, h)
 		} else {
 			m.OnDispose(h)
@@ -726,6 +731,14 @@ func c13Gen(r *Rng, gated bool) *C13Input {
 			in.Load = r.Range(1, 2)
 		}
 		in.Start = r.Chance(40)
+		if in.Mode == 4 && r.Chance(50) {
+			// state-based disposal handlers, disposal started by the machine itself
+			// (parent-context cancel -> Disposing -> the registered handlers ->
+			// Disposed -> Dispose). A direct Dispose() on such a machine bypasses
+			// the Disposing state by design (amhelp.Dispose is the entry point
+			// there: mode 6), so the mixin is only combined with mode 4
+			in.Mixin, in.Handlers = true, true
+		}
 		return in
 	}
 	// threads: 1-2 disposers, 0-1 workload goroutine, 1-3 API callers
@@ -908,6 +921,11 @@ func runC13(c *Ctx) error {
 				in2.Start = true
 				items = append(items, &item{kind: "serial-start", in: &in2})
 			}
+			if mode == 4 {
+				in3 := *in
+				in3.Mixin, in3.Handlers = true, true
+				items = append(items, &item{kind: "serial-mixin", in: &in3})
+			}
 		}
 		for _, in := range c13Landings() {
 			items = append(items, &item{kind: "landing", in: in})
@@ -956,6 +974,7 @@ func runC13(c *Ctx) error {
 		out.Count("state_handlers", fmt.Sprint(in.Handlers))
 		out.Count("load_goroutines", fmt.Sprint(in.Load))
 		out.Count("start_state", fmt.Sprint(in.Start))
+		out.Count("disposed_mixin", fmt.Sprint(in.Mode == 6 || in.Mixin))
 		out.Count("disposed", fmt.Sprint(obs.Disposed))
 		for _, k := range in.Threads {
 			out.Count("thread_kind", fmt.Sprint(k))
